@@ -3,6 +3,8 @@ NEXT Next
 CONSTANTS
   FlatLen = 4
   Mode = "nest"
+  EnumCap32 = FALSE
+  UnionFieldCallback = TRUE
   Small = FALSE
 INVARIANT Sane
 INVARIANT ImplSatisfiesProperty
